@@ -61,6 +61,22 @@ func TestC09(t *testing.T) {
 		dopts := *o
 		dopts.MaxArr = 8
 		docs.AddDefaults(rt, f.Root, 0.8, &dopts, func(n *model.Node) bool { return defaultAllowed(c, n) })
+		if rapid.IntRange(0, 3).Draw(rt, "defaultcollision") == 0 {
+			// two structurally identical object schemas that compete for one Go type name and differ
+			// only in their defaults: each must keep its own defaults
+			mk := func(n int64, sv string) *model.Node {
+				dn, ds := jv.IntV(n), jv.StrV(sv)
+				return &model.Node{Kind: model.KObject, Props: []model.Prop{
+					{Name: "maxConn", Node: &model.Node{Kind: model.KInteger, Default: &dn}},
+					{Name: "mode", Node: &model.Node{Kind: model.KString, Default: &ds}},
+				}}
+			}
+			a, b := mk(100, "strict"), mk(10, "lenient")
+			inner := &model.Node{Kind: model.KObject, Props: []model.Prop{{Name: "limits", Node: a}}, Required: []string{"limits"}}
+			f.Root.Props = append(f.Root.Props, model.Prop{Name: "colsrv", Node: inner}, model.Prop{Name: "colsrv_limits", Node: b})
+			f.Root.Required = append(f.Root.Required, "colsrv", "colsrv_limits")
+			c.Count("shape.default_collision")
+		}
 		cfg := baseConfig()
 		cfg.MinSizedInts = rapid.Bool().Draw(rt, "minsized")
 		if cfg.MinSizedInts && hasIntegerEnum(f) && c.Avoid("enums.typed_integer_min_sized") {
@@ -128,6 +144,14 @@ func TestC09(t *testing.T) {
 		if nonZero > 0 {
 			for _, j := range jobs {
 				if j.Label == "absent" || j.Label == "null" {
+					c.NonTrivial(cs.Files[0].Text, j.Doc)
+				}
+			}
+		}
+		if f.Root.Prop("colsrv") != nil {
+			add(base.Set("colsrv", jv.ObjV(jv.Field("limits", jv.ObjV()))).Set("colsrv_limits", jv.ObjV()), "collision-absent")
+			for _, j := range jobs {
+				if j.Label == "collision-absent" {
 					c.NonTrivial(cs.Files[0].Text, j.Doc)
 				}
 			}
